@@ -28,7 +28,7 @@ structure Entry where
   op     : Op := .other
   ident  : Nat := 0         -- `identity.id` named by the entry
   key    : Nat := 0         -- public key the entry is signed with
-  identOk : Bool := true    -- the identity block is the genuine one of `ident` (its key and signatures)
+  identOk : Bool := true    -- the identity block is the genuine one of `ident` (its key, signatures and type)
   sigOk  : Bool := true     -- `Entry.Verify`: signature verifies under `key`
   hashOk : Bool := true     -- claimed hash = hash of the content
 deriving DecidableEq, Repr, Inhabited
